@@ -24,6 +24,15 @@ def expr_programs(tier, rng):
     for _ in range(n):
         ty = rng.choice(G.TYPES + ['enum:Mode', 'ptr:VNode'])
         progs.append(D.Program('binding', ty, G.rand_expr(rng, ty, rng.choice([3, 4, 5])), tag='expr-random'))
+    # the same random and operator-pair expressions printed with the parentheses JavaScript needs and no others, so that
+    # precedence / associativity are decided by the real parser; every second one uses === / !==
+    extra = []
+    for i, p in enumerate(progs):
+        if p.tag in ('expr-random', 'expr-operator-pairs') and (tier == 'thorough' or i % 2 == 0):
+            q = D.Program('binding', p.ty, p.body, tag='expr-minimal-parens')
+            q.printer = (lambda e: L.pp_min(e, 1)) if i % 4 < 2 else (lambda e: L.pp_min(e, 0))
+            extra.append(q)
+    progs += extra
     return [p for p in progs if L.has_dynamic(p.body)]
 
 
